@@ -31,11 +31,16 @@ def run(ctx):
     n = V.rule_barrier(ctx, 'R05.3', V.TOPN, 'topn')
     n += V.rule_barrier(ctx, 'R05.3', V.BEST, 'bestfit')
     n += V.rule_bestfit_claims(ctx, 'R05.3')
+    n += V.rule_hungarian(ctx, 'R05.3')
     ctx.floor('R05.3', n, 7)
     ctx.rule('R05.5', 'batch trackers: a batch is finished (results sent, store updated) before the next one may compute '
              'distances - the schedule of the voting threads is not observable')
     from props import C06
     ctx.floor('R05.5', C06.protocol(ctx, 'R05.5'), 10)
+    import trackerlib as T
+    ctx.rule('R05.6', 'idle listings report every unexpired lookup result, whatever shard it came from (no dropping / '
+                      'short-circuiting adaptor besides the expiry filter)')
+    ctx.floor('R05.6', T.rule_observers(ctx, 'R05.6', parts=('idle',)), 8)
     inventory(ctx)
 
 
